@@ -411,6 +411,10 @@ class BlockMachine(Machine):
         if u.freed:
             raise Finding('use after free', node.get('l'), 'attribute access on freed uref %d' % u.id)
         k = '%s.%s' % (group, key)
+        if op in ('set', 'get') and len(v) > 2:
+            k += '[%s]' % (v[2],)        # indexed attribute (printf-style name)
+        elif op == 'delete' and len(v) > 1:
+            k += '[%s]' % (v[1],)
         if op == 'set':
             u.attrs[k] = v[1] if len(v) > 1 else True
             return 0
